@@ -21,6 +21,9 @@ type Sub struct {
 	owner *Fact // the fact whose probe state counts this object's probe methods (harness state, not fact data)
 }
 
+// Switch is a boolean with a type name of its own.
+type Switch bool
+
 // Fact is the main fact type. Every field is exported so the engine can reach it.
 type Fact struct {
 	I8   int8
@@ -61,6 +64,7 @@ type Fact struct {
 	PFalse *bool
 	ATrue  interface{}
 	AFalse interface{}
+	NB     Switch // a named boolean type (never written by rules)
 	Subs   []*Sub
 
 	M    map[string]int64
@@ -282,6 +286,9 @@ func (f *Fact) PokeS(v string) { f.S = v }
 func (f *Fact) Boom() int64 { panic("boom") }
 
 func (f *Fact) BoomB() bool { panic("boomb") }
+
+// IsNB returns the named boolean.
+func (f *Fact) IsNB() Switch { return f.NB }
 
 // BoomI panics with an integer, BoomV with a struct value, BoomE with an error.
 func (f *Fact) BoomI() int64 { panic(42) }
